@@ -55,7 +55,10 @@ def expand(acc, item, tier, seed):
                 acc.violation("tag-configuration-aliased", {"cfg": cfgkey, "state": state, "history": []}, msg)
 
         def viol(k, m):
-            acc.violation(k, {"cfg": cfgkey, "state": state, "history": list(rig.log)}, m)
+            case = {"cfg": cfgkey, "state": state, "history": list(rig.log)}
+            if k.startswith("seat"):
+                case["seat_check"] = True        # the violation is about the state after the history, not about its last reply
+            acc.violation(k, case, m)
 
         for k, m in rig.seat(state):
             viol(k, m)
@@ -138,4 +141,5 @@ def replay(case):
     rig = TS.Rig(TS.config(cfgkey[0], cfgkey[1]), seam=cfgkey[3], via_main=cfgkey[4])
     msgs = list(rig.config_problems)
     msgs += TS.replay_history(rig, case.get("history", []))
+    msgs += TS.seat_check(rig, case)
     return msgs
